@@ -67,9 +67,12 @@ Theorem C14_sap_sound :
 Proof. exact sap_sound. Qed.
 Print Assumptions C14_sap_sound.
 
-(* Completeness: every pair of distinct boxes whose rounded images overlap STRICTLY on the sweep axis
-   and whose intervals overlap on the other two axes is emitted exactly once, in exactly one of the two
-   orientations; and no pair at all is emitted twice or in both orientations. *)
+(* Completeness (after the SAPcmp tie-break "starts before ends", /repo cb66bd0cb): every pair of distinct
+   boxes whose rounded images overlap on the sweep axis - non-strictly, hence by monotonicity of rnd every
+   pair whose un-rounded intervals overlap - and whose intervals overlap on the other two axes is
+   emitted exactly once, in exactly one of the two orientations; and no pair at all is emitted twice or
+   in both orientations.  Together with C14_sap_sound: the emitted set is EXACTLY the set of pairs
+   overlapping (rounded on the sweep axis) on all three axes. *)
 Theorem C14_sap_complete :
   forall (K : Type) (kcmp : K -> K -> Z) (rnd : K -> K),
     (forall a b, kcmp a b < 0 <-> 0 < kcmp b a) ->
@@ -80,8 +83,8 @@ Theorem C14_sap_complete :
     forall (d : box K),
     (forall (i j : nat) (bi bj : box K),
        nth_error bs i = Some bi -> nth_error bs j = Some bj -> i <> j ->
-       kcmp (rnd (bmin K axis bi)) (rnd (bmax K axis bj)) < 0 ->
-       kcmp (rnd (bmin K axis bj)) (rnd (bmax K axis bi)) < 0 ->
+       kcmp (rnd (bmin K axis bi)) (rnd (bmax K axis bj)) <= 0 ->
+       kcmp (rnd (bmin K axis bj)) (rnd (bmax K axis bi)) <= 0 ->
        (kcmp (bmin K (axis_y axis) bi) (bmax K (axis_y axis) bj) <= 0 /\
         kcmp (bmin K (axis_y axis) bj) (bmax K (axis_y axis) bi) <= 0 /\
         kcmp (bmin K (axis_z axis) bi) (bmax K (axis_z axis) bj) <= 0 /\
@@ -130,27 +133,21 @@ Theorem C14_sap_order :
 Proof. exact sap_sorted. Qed.
 Print Assumptions C14_sap_order.
 
-(* DESIGN.md section 7 item 2: completeness is FALSE when "strictly" is dropped.  With a monotone
-   rounding map and two boxes that overlap strictly on every axis (un-rounded), rnd(max_0) = rnd(min_1)
-   makes the sweep process max_0 before min_1 (stable sort, lower id first) and the pair is dropped;
-   the same two boxes in the other order are reported.  Replayed on mj_SAP and through mj_forward by
-   harness/props/c14.py (float cast as rnd). *)
-Theorem C14_sap_tie_refuted :
-  exists (rnd : Z -> Z) (bs : list (box Z)),
-    (forall a b, a <= b -> rnd a <= rnd b) /\
-    (forall b ax, In b bs -> In ax [0; 1; 2] -> bmin Z ax b < bmax Z ax b) /\
-    (exists b0 b1, nth_error bs 0 = Some b0 /\ nth_error bs 1 = Some b1 /\
-       rnd (bmax Z 0 b0) = rnd (bmin Z 0 b1) /\
-       forall ax, In ax [0; 1; 2] -> bmin Z ax b0 < bmax Z ax b1 /\ bmin Z ax b1 < bmax Z ax b0) /\
-    sap Z zcmp3 rnd 0 bs zbox0 = [] /\
-    sap Z zcmp3 rnd 0 (rev bs) zbox0 = [(1%nat, 0%nat)].
-Proof. exact sap_tie_refuted. Qed.
-Print Assumptions C14_sap_tie_refuted.
+(* un-rounded overlap implies rounded overlap (monotone rnd), so C14_sap_complete covers every pair whose
+   double intervals overlap: stated once for the record *)
+Theorem C14_sap_unrounded :
+  forall (K : Type) (kcmp : K -> K -> Z) (rnd : K -> K),
+    (forall a b, kcmp a b <= 0 -> kcmp (rnd a) (rnd b) <= 0) ->
+    forall lo1 hi1 lo2 hi2 : K,
+      kcmp lo1 hi2 <= 0 -> kcmp lo2 hi1 <= 0 ->
+      kcmp (rnd lo1) (rnd hi2) <= 0 /\ kcmp (rnd lo2) (rnd hi1) <= 0.
+Proof. intros K kcmp rnd Hm lo1 hi1 lo2 hi2 H1 H2. split; apply Hm; assumption. Qed.
+Print Assumptions C14_sap_unrounded.
 
 (* mj_broadphase on bodies (flex not modelled): a body pair that passes filterBodyPair and the body
    masks is in the output when (1) one member is always-colliding (world body with geoms, or dof-less
-   body with a plane), or (2) both are collidable non-world bodies whose AAMMs overlap strictly on the
-   sweep axis (rounded) and overlap on the other two. *)
+   body with a plane), or (2) both are collidable non-world bodies whose AAMMs overlap on the
+   sweep axis (rounded, non-strictly) and on the other two. *)
 Theorem C14_broadphase_complete :
   forall (K : Type) (kcmp : K -> K -> Z) (rnd : K -> K),
     (forall a b, kcmp a b < 0 <-> 0 < kcmp b a) ->
@@ -174,8 +171,8 @@ Theorem C14_broadphase_complete :
        (forall b, In b boxes -> kcmp (bmin K 0 b) (bmax K 0 b) <= 0) ->
        nth_error (collidable bodies) i1 = Some b1 -> nth_error (collidable bodies) i2 = Some b2 -> b1 <> b2 ->
        nth_error boxes i1 = Some x1 -> nth_error boxes i2 = Some x2 ->
-       kcmp (rnd (bmin K 0 x1)) (rnd (bmax K 0 x2)) < 0 ->
-       kcmp (rnd (bmin K 0 x2)) (rnd (bmax K 0 x1)) < 0 ->
+       kcmp (rnd (bmin K 0 x1)) (rnd (bmax K 0 x2)) <= 0 ->
+       kcmp (rnd (bmin K 0 x2)) (rnd (bmax K 0 x1)) <= 0 ->
        (kcmp (bmin K 1 x1) (bmax K 1 x2) <= 0 /\ kcmp (bmin K 1 x2) (bmax K 1 x1) <= 0 /\
         kcmp (bmin K 2 x1) (bmax K 2 x2) <= 0 /\ kcmp (bmin K 2 x2) (bmax K 2 x1) <= 0) ->
        filterBodyPair (b_weld (body b1)) (b_pweld (body b1)) (b_asleep (body b1)) (b_dof (body b1))
@@ -200,8 +197,15 @@ Print Assumptions C14_zcmp3_preorder.
 Example C14_sap_example :
   sap Z zcmp3 (fun x => x) 0
       [((0, 0, 0), (4, 4, 4)); ((3, 1, 1), (8, 2, 2)); ((4, 0, 0), (5, 1, 1)); ((9, 0, 0), (10, 9, 9)); ((2, 7, 0), (6, 8, 1))] zbox0
-  = [(0%nat, 1%nat); (1%nat, 2%nat)].
+  = [(0%nat, 1%nat); (0%nat, 2%nat); (1%nat, 2%nat)].
 Proof. vm_compute. reflexivity. Qed.
+
+(* the former float-tie witness of DESIGN.md section 7 item 2 (rnd8 x = 8 * (x / 8), rnd8 9 = rnd8 8): with the
+   tie-break the pair is reported in both declaration orders *)
+Example C14_sap_tie_example :
+  sap Z zcmp3 rnd8 0 tie_boxes zbox0 = [(0%nat, 1%nat)] /\
+  sap Z zcmp3 rnd8 0 (rev tie_boxes) zbox0 = [(1%nat, 0%nat)].
+Proof. exact sap_tie_example. Qed.
 
 Example C14_filters_example :
   filterBodyPair 1 0 0 6 2 1 0 1 0 = true /\ filterBodyPair 1 0 0 6 2 1 0 1 1 = false /\
